@@ -62,8 +62,11 @@ type C11Plan struct {
 	// Late: which reads of the shim from the underlying agent, made under a deadline the shim armed itself and
 	// finding nothing yet, time out because the agent is slower than that deadline (its reply arrives afterwards).
 	// Code that arms no deadline is not affected.
-	Late     []int          `json:"late,omitempty"`
-	Strategy sched.Strategy `json:"strategy"`
+	Late []int `json:"late,omitempty"`
+	// Faults: failure replies of the underlying agent to the n-th request of a kind. Which operation meets the
+	// fault depends on the schedule; every operation must still complete and nobody may be left holding a lock.
+	Faults   []refagent.PeerFault `json:"faults,omitempty"`
+	Strategy sched.Strategy       `json:"strategy"`
 }
 
 func pick[T any](r *sim.Rng, xs []T) T { return xs[r.Intn(len(xs))] }
@@ -152,6 +155,11 @@ func genC11(r *sim.Rng, tier string) any {
 	if r.Bool(0.35) {
 		for i := 0; i < r.Range(1, 2); i++ {
 			p.Late = append(p.Late, r.Intn(4))
+		}
+	}
+	if r.Bool(0.2) {
+		for i := 0; i < r.Range(1, 2); i++ {
+			p.Faults = append(p.Faults, refagent.PeerFault{At: -1, OnKind: pick(r, []string{"list", "list", "sign", "remove", "add"}), Nth: r.Intn(6), Fault: refagent.FaultFail})
 		}
 	}
 	p.Strategy = sched.Strategy{Kind: pick(r, []string{"random", "random", "pct", "pct", "rr"}), Seed: r.Uint64(), D: r.Range(1, 3), Horizon: 60 * total}
@@ -431,7 +439,9 @@ func execC11(t *testing.T, raw json.RawMessage) *sim.Outcome {
 	timersBefore := simtime.Fired()
 	a, b := schedconn.Pipe("upstream")
 	a.LateAt = p.Late
-	peer := &refagent.Peer{Agent: ref}
+	peer := &refagent.Peer{Agent: ref} // the plan's faults are armed once the shim is constructed
+	upFaults := 0
+	peer.OnFault = func(kind, fault string, idx int) { upFaults = bumpInt(upFaults) }
 	s.Go("upstream", true, func() { peer.Serve(b) })
 
 	var shim shimagent.ShimAgent
@@ -592,6 +602,7 @@ func execC11(t *testing.T, raw json.RawMessage) *sim.Outcome {
 			a.Close()
 			return
 		}
+		armFaults(peer, p.Faults)
 		yubi := yubiagent.VerifNewServer(shim, "", true)
 		for ti := range p.Tasks {
 			ti := ti
@@ -709,6 +720,16 @@ func execC11(t *testing.T, raw json.RawMessage) *sim.Outcome {
 		o.Signature = fmt.Sprintf("timers:%d:%s", n, s.OrderHash())
 		return o
 	}
+	if upFaults > 0 {
+		// The underlying agent refused a request it would have served: which operation met the refusal and what
+		// it then reports depends on the schedule and is judged in the sequential worlds; here completion (no
+		// operation may hang, no lock may stay held), crashes, reply ownership and transport discipline are judged.
+		for i := 0; i < upFaults; i++ {
+			o.Fault("upstream/fail")
+		}
+		o.Signature = fmt.Sprintf("upfault:%d:%s", upFaults, s.OrderHash())
+		return o
+	}
 	if a.Expired > 0 {
 		// The shim gave up on a reply: what the abandoned request did to the underlying agent and which later
 		// calls may legitimately fail is no longer determined, so only completion, crashes, reply ownership and
@@ -822,6 +843,14 @@ func (r *runState) count() int { return len(r.hist) }
 func withChoices(p C11Plan, ch []int) C11Plan {
 	p.Strategy.Choices = append([]int{}, ch...)
 	return p
+}
+
+//go:norace
+func bumpInt(n int) int { return n + 1 }
+
+//go:norace
+func armFaults(p *refagent.Peer, fs []refagent.PeerFault) {
+	p.Faults = append([]refagent.PeerFault(nil), fs...)
 }
 
 func mustJSON(v any) json.RawMessage { b, _ := json.Marshal(v); return b }
